@@ -56,7 +56,8 @@ class C15(scen.WorldProp):
         sc = {"start": 1000.0, "end": end, "tower_size": N, "events": events,
               "on_join": scen.humans_on_join(humans),
               "bot": scen.bot_cfg({"type": "plainhunt", "stage": N, "start_row": None}, up_down_in=rng.random() < 0.5),
-              "rhythm": scen.rhythm_cfg("wait", peal_speed=ps, inertia=rng.choice([0.0, 0.5, 1.0]))}
+              "rhythm": scen.rhythm_cfg("wait", peal_speed=ps, inertia=rng.choice([0.0, 0.5, 1.0]),
+                                        max_bells=rng.choice([15, 15, 15, 30, 5, 3, 2, 1]))}
         return {"k": "world", "scenario": sc, "t0": look_tos[-1], "t_lead": None, "opening": opening,
                 "humans": humans, "I": I, "early_others": False, "later": True,
                 "lags": [rng.choice([0.05, 0.2, 0.4, 0.8]) for _ in range(5)], "look_tos": look_tos}
@@ -127,7 +128,8 @@ class C15(scen.WorldProp):
             events.sort(key=lambda e: e[0])
             sc = {"start": 1000.0, "end": end, "tower_size": N, "events": events,
                   "on_join": scen.humans_on_join(humans),
-                  "bot": scen.bot_cfg(spec), "rhythm": scen.rhythm_cfg(kind, peal_speed=ps)}
+                  "bot": scen.bot_cfg(spec),
+                  "rhythm": scen.rhythm_cfg(kind, peal_speed=ps, max_bells=rng.choice([15, 15, 15, 8, 4, 2, 1]))}
             if server:
                 js = {"type": "method", "stage": N, "notation": "x1", "bob": {"0": "14"}, "single": {"0": "1234"}}
                 sc["events"] = [[1000.05, "msg", {"m": "row_gen", "json": js}]] + events
